@@ -856,8 +856,15 @@ fn partition(
     // The priorities at the beginning of the argument list have precedence over
     // the priorities given at the end of the argument list, therefore we're applying
     // them in reversed order.
+    // `top` and `bottom` refer to the order of the files in the input and leave no ties,
+    // so they must see the original order and the priorities given after them don't matter.
+    let decisive_count = config
+        .priority
+        .iter()
+        .position(|p| matches!(p, Priority::Top | Priority::Bottom))
+        .map_or(config.priority.len(), |i| i + 1);
     let mut sort_errors = Vec::new();
-    for priority in config.priority.iter().rev() {
+    for priority in config.priority[..decisive_count].iter().rev() {
         sort_errors.extend(sort_by_priority(&mut file_sub_groups, priority));
     }
 
